@@ -351,6 +351,8 @@ def check(fx, rep, tier):
 
     _core.import_rules(rep, fx, "C19", "R14.1", only_rules=("R19.2",), floor=3, what="forest obligations (C19 R19.2) behind 'every class is folded'")
     _core.import_rules(rep, fx, "C01", "R14.4", only_rules=("R01.1",), floor=5, what="panic sites inside the unifier (C01 R01.1)", key_filter=lambda k: "tc::unification::" in k)
+    # turning the resolved forest into types ends: every recursive component of the type checker has a verified cut (C01 R01.3)
+    _core.import_rules(rep, fx, "C01", "R14.4", only_rules=("R01.3",), floor=1, what="recursion bounds inside the type checker (C01 R01.3)", key_filter=lambda k: ("recursion" in k) and ("tc::" in k))
 
     return rep.finish(
         "Post-condition skeleton of unification: the per-class body stores exactly a singleton set unconditionally, progress is flagged on every fold step and the round loop exits only without progress; "
